@@ -22,7 +22,7 @@ def write_image(path, kind, files):
 
 def step_record(hid, cat, cmd, target, code, out, hooks_t):
     post, _ = hostrun.observe(target, cmd["sw"], True)
-    ev = {"cmd": cmd, "same": not os.path.exists(target), "exit": code, "msg": len(out.strip()) > 0, "tb": "TRACEBACK" in out, "post": post, "hooks": [], "stdout": out[-200:]}
+    ev = {"cmd": cmd, "same": not os.path.exists(target), "exit": code, "msg": len(out.strip()) > 0, "tb": "TRACEBACK" in out, "post": post, "hooks": [], "stdout": out[-200:], "listed": []}
     return {"id": hid, "init": {"kind": "absent", "big": False, "files": []}, "cat": [{"id": i, "f": ct.jfile(f)} for i, f in sorted(cat.items())], "events": [ev]}
 
 
